@@ -90,6 +90,9 @@ func (s *sys) apply(ev string) applied {
 	a := applied{ev: ev}
 	s.curEvent = ev
 	s.resend = nil
+	if s.step == 0 && ev != "MAPREV" {
+		mapDesc = false // every execution starts in ascending order
+	}
 	s.replayJump = false
 	parts := strings.Split(ev, ":")
 	switch parts[0] {
@@ -122,6 +125,9 @@ func (s *sys) apply(ev string) applied {
 				return s.handler().HandlePrecommitProofs(ctx, msg).String()
 			})
 		}
+	case "MAPREV":
+		mapDesc = !mapDesc
+		a.result = fmt.Sprintf("descending=%v", mapDesc)
 	case "CANCEL":
 		k, _ := strconv.Atoi(parts[1])
 		s.cancelAt = k
@@ -306,7 +312,7 @@ func (s *sys) applyPH(args []string) string {
 		ph.Signature = flipBit(ph.Signature)
 	case "nokey":
 		ph.ProposerPubKey = nil
-	case "badpcp", "shortpcp", "foreignpcp", "duppcp", "emptypcp", "pcpidN", "pcpidlen1":
+	case "badpcp", "shortpcp", "foreignpcp", "duppcp", "pcpnil3", "emptypcp", "pcpidN", "pcpidlen1":
 		pcp := ph.Header.PrevCommitProof.Clone()
 		mh := string(ph.Header.PrevBlockHash)
 		switch variant {
@@ -324,6 +330,12 @@ func (s *sys) applyPH(args []string) string {
 			// One validator signing both the block and nil.
 			if h > initialH {
 				pcp.Proofs[""] = []gcrypto.SparseSignature{w.voteSig('c', h-1, pcp.Round, "", 0)}
+			}
+		case "pcpnil3":
+			// Two targets: the block's precommits (which the node normally holds already) and the Byzantine validator's
+			// nil precommit of that round (new to the node unless it was sent before).
+			if h > initialH {
+				pcp.Proofs[""] = []gcrypto.SparseSignature{w.voteSig('c', h-1, pcp.Round, "", byzIdx)}
 			}
 		case "emptypcp":
 			pcp.Proofs = map[string][]gcrypto.SparseSignature{}
